@@ -23,7 +23,7 @@ import numpy as np
 
 from . import common
 from .common import Ctx, frac
-from .geo_common import disagree as gdisagree, violate as gviolate
+from .geo_common import disagree as gdisagree, violate as gviolate, leancheck, run_corpus
 from .geo_common import PI, as_shape, close, fbits, fline, floats, qline, rats, rows_of, ulps
 
 REL = 1e-8
@@ -69,6 +69,7 @@ def run(ctx: Ctx):
     warnings.simplefilter("ignore")
     ctx.extra["translated"] = translate()
     ctx.proof = common.prove("C07")
+    leancheck(ctx, "C07")
     ctx.rule = ("elements: a in [6600 km, 60000 km], e in [0.001, 0.95] (log-dense at small e, both ends), i in [0.01, pi-0.01] "
                 "(incl. polar, both ends, retrograde), Omega/omega/E in [0, 2pi) with octant boundaries and +-1e-9/1e-4 "
                 "neighbourhoods; shapes (6,), (1,6), (n,6); both directions. Non-trivial: every case; distinct by element values.")
@@ -82,10 +83,16 @@ def run(ctx: Ctx):
     if Fraction(gm_model) != frac(GM):
         gdisagree(ctx, "constant.GM (generated table)", {"fn": "GM"}, gm_model, GM)
     n = ctx.budget(700, 35000)
-    for _ in range(n):
-        m = rng.choice([1, 1, 1, 2, 4])
-        shape = rng.choice(["1d", "1xk"]) if m == 1 else "nxk"
-        els = [gen_elements(rng) for _ in range(m)]
+    corpus = []
+    run_corpus(ctx, "C07", lambda c: corpus.append(c) if c.get("kind") == "kepler" else None)
+    for gi in range(len(corpus) + n):
+        if gi < len(corpus):
+            shape, els = corpus[gi]["shape"], [list(map(float, r)) for r in corpus[gi]["elements"]]
+            m = len(els)
+        else:
+            m = rng.choice([1, 1, 1, 2, 4])
+            shape = rng.choice(["1d", "1xk"]) if m == 1 else "nxk"
+            els = [gen_elements(rng) for _ in range(m)]
         case = {"fn": "kepler<->trs", "shape": shape, "elements": els}
         ctx.case(case, nontrivial=True)
         ctx.count(f"shape={shape}")
@@ -230,8 +237,25 @@ def one_case(ctx, case, shape, els):
 
 
 def replay(payload):
+    """re-run the oracle on a stored case against $MIDGARD_REPO; exit code 1 when the violation reproduces"""
+    warnings.simplefilter("ignore")
     c = payload.get("replay", payload)
-    print(json.dumps(c, indent=1, default=str)[:3000])
+    print(json.dumps(c, indent=1, default=str)[:2500])
     print("key:", payload.get("key"), "| what:", payload.get("what"))
-    print("re-run `VERIF_SEED=%s ./check C07 --tier %s` to reproduce" % (payload.get("seed", 0), payload.get("tier", "quick")))
-    return 0
+    ctx = Ctx("C07", "quick", int(payload.get("seed", 0) or 0))
+    if c.get("fn") != "kepler<->trs":
+        print("no dedicated replay for this kind of case")
+        return 0
+    try:
+        one_case(ctx, c, c["shape"], c["elements"])
+    except Exception as e:
+        print("raised", type(e).__name__, e)
+        return 1
+    for v in ctx.violations:
+        print("VIOLATION " + v.key + ": " + v.what)
+    for d in ctx.corr_broken[:5]:
+        print("model/code disagreement:", d["correspondence"])
+    print("verdict:", "violation reproduced" if ctx.violations else "no violation on this tree")
+    if ctx._driver:
+        ctx._driver.close()
+    return 1 if ctx.violations else 0
